@@ -15,6 +15,12 @@ VARIABLES l, bad
 tvars == <<l, bad>>
 V(id, verdict, dev, why) == [id |-> id, verdict |-> verdict, dev |-> dev, why |-> why]
 
+SelectPanic == "crossbeam-channel/src/select.rs|dropped `SelectedOperation` without completing the operation"
+JoinPanic == "mos/src/debugger/mod.rs|Could not join debugger thread: Any { .. }"
+PoisonPanic == "mos/src/lsp/mod.rs|called `Result::unwrap()` on an `Err` value: PoisonError { .. }"
+LaunchUnwrap == "mos/src/debugger/mod.rs|called `Option::unwrap()` on a `None` value"
+PauseLaunchPanic == "mos/src/debugger/mod.rs|Should never receive any machine events during launch."
+PortBusyPanic == "mos/src/debugger/mod.rs|Couldn't listen on port N: Address already in use (os error 98)"
 UnwrapPanic == "mos/src/lsp/mod.rs|called `Option::unwrap()` on a `None` value"
 Has(r, w) == \E k \in 1..Len(r.life) : r.life[k].what = w
 SharedAtUnwrap(r) == \/ r.life = <<>>                                   \* no hooks in this tree: the panic site alone is the witness
@@ -27,6 +33,10 @@ Tier1(r) ==
   IF clean /\ ~r.portAfter THEN <<>>
   ELSE IF r.rc = 101 /\ r.panicAt = UnwrapPanic /\ SharedAtUnwrap(r) /\ ~r.portAfter
        THEN <<V(r.id, "deviation", "UnwrapSharedContext", "exit status 101: panic at the unwrap of the shared context" \o where)>>
+  ELSE IF r.rc = 101 /\ r.panicAt = JoinPanic /\ r.others # <<>> /\ ~r.portAfter
+       THEN <<V(r.id, "deviation", "DeadDebugThreadFailsShutdown", "exit status 101: DebugServer::join panicked because the debug thread had panicked earlier" \o where)>>
+  ELSE IF r.rc = 101 /\ r.panicAt = PoisonPanic /\ r.state = "notoml" /\ (\E k \in 1..Len(r.others) : r.others[k] = LaunchUnwrap) /\ ~r.portAfter
+       THEN <<V(r.id, "deviation", "LaunchWithoutConfigPanics", "exit status 101: the context lock was poisoned by the launch handler's panic" \o where)>>
   ELSE IF ~terminated
        THEN <<V(r.id, "violation", "", "Terminates: still alive " \o ToString(r.bound) \o " ms after the client finished; threads wait in " \o ToString(r.blocked)
                 \o (IF Has(r, "dbg_join_enter") /\ ~Has(r, "dbg_join_return") THEN "; main is in DebugServer::join" ELSE "")
@@ -39,7 +49,10 @@ Tier1(r) ==
 (* ---- tier 2 ---- *)
 (* r.devs: the deviations pinned for the tree under test (open findings and the latent ones behind them) *)
 DevsOf(r) == {r.devs[k] : k \in 1..Len(r.devs)}
-H0(r) == [s |-> S0, ok |-> TRUE, n |-> 0, why |-> "", dev |-> DevsOf(r)]
+(* the debug thread leaves no life event when it panics; stderr says that it did (r.others) *)
+Died(r) == \E k \in 1..Len(r.others) : r.others[k] # SelectPanic
+Poisoned(r) == \E k \in 1..Len(r.others) : r.others[k] = LaunchUnwrap
+H0(r) == [s |-> S0, ok |-> TRUE, n |-> 0, why |-> "", dev |-> DevsOf(r), died |-> Died(r), poison |-> Poisoned(r)]
 Rej(h, n, why) == [h EXCEPT !.ok = FALSE, !.n = n, !.why = why]
 Need(h, n, cond, sn, why) == IF cond THEN [h EXCEPT !.s = sn] ELSE Rej(h, n, why)
 Ev(h, e, n) ==
@@ -53,7 +66,7 @@ Ev(h, e, n) ==
                                          MLeft(s), "main loop left in model state " \o s.m \o " with refcount " \o ToString(e.n) \o " (model " \o ToString(s.refs) \o ")")
     [] e.what = "io_joined" -> Need(h, n, s.m = "left" /\ MUnwrap(s, Impl).m = "io", MUnwrap(s, Impl), "IO threads joined although the model's unwrap panics")
     [] e.what = "dbg_join_enter" -> Need(h, n, s.m = "io", MSetFlag(s, Impl), "DebugServer::join entered early")
-    [] e.what = "dbg_join_return" -> Need(h, n, MJoinEn(s, Impl), MJoin(s), "join returned while the debug thread has not ended")
+    [] e.what = "dbg_join_return" -> Need(h, n, MJoinEn(s, Impl), MJoin(s, Impl), "join returned while the debug thread has not ended")
     [] e.what = "session_new" -> Need(h, n, DTopEn(s) /\ ~s.flag, DTop(s), "new session in model state " \o s.d)
     [] e.what = "accept_enter" -> Need(h, n, s.d = "new", DBind(s), "accept entered in model state " \o s.d)
     [] e.what = "accepted" -> Need(h, n, s.d = "accept", DAccept(s), "accepted without blocking accept")
@@ -64,7 +77,10 @@ Ev(h, e, n) ==
     [] e.what = "dbg_thread_end" -> Need(h, n, DTopEn(s) /\ s.flag, DTop(s), "debug thread ended without the flag")
     [] OTHER -> h
 RECURSIVE Fold(_, _, _)
-Fold(r, h, n) == IF n > Len(r.life) \/ ~h.ok THEN h ELSE Fold(r, Ev(h, r.life[n], n), n + 1)
+(* before the first step of the main thread towards the end, a debug thread that is known to have died is dead in the model too *)
+Killed(h, e) == IF h.died /\ e.what \in {"shutdown_request", "main_loop_left"} /\ h.s.d \in {"new", "accept", "accepted", "session"}
+                THEN [h EXCEPT !.s = DKill(h.s, h.poison), !.died = FALSE] ELSE h
+Fold(r, h, n) == IF n > Len(r.life) \/ ~h.ok THEN h ELSE Fold(r, Ev(Killed(h, r.life[n]), r.life[n], n), n + 1)
 Tier2(r) ==
   LET h == Fold(r, H0(r), 1)
       s == h.s
@@ -76,8 +92,13 @@ Tier2(r) ==
        IF s.m = "left" /\ predicted = 101 /\ r.rc # 101 THEN <<V(r.id, "drift", "Shutdown", "model predicts the unwrap panic, observed status " \o ToString(r.rc))>>
        ELSE <<V(r.id, "info", "LifeEventsReplayed", ToString(Len(r.life)))>>
 
-SelectPanic == "crossbeam-channel/src/select.rs|dropped `SelectedOperation` without completing the operation"
-OtherPanic(r, p) == IF p = SelectPanic /\ (r.life = <<>> \/ Has(r, "shutdown_signal"))
+OtherPanic(r, p) == IF p = PauseLaunchPanic /\ r.state = "launchpause"
+                    THEN V(r.id, "deviation", "PauseWhileLaunchingPanics", "the debug thread panicked on a pause that arrived before configurationDone")
+                    ELSE IF p = LaunchUnwrap /\ r.state = "notoml"
+                    THEN V(r.id, "deviation", "LaunchWithoutConfigPanics", "the debug thread panicked in the launch handler (no mos.toml)")
+                    ELSE IF p = PortBusyPanic /\ r.state = "portbusy"
+                    THEN V(r.id, "info", "PortInUse", "1")       \* the environment's fault, reported by a deliberate panic: not judged
+                    ELSE IF p = SelectPanic /\ (r.life = <<>> \/ Has(r, "shutdown_signal"))
                     THEN V(r.id, "deviation", "SignalPanicsDebugThread", "the debug thread panicked when it received the LSP shutdown signal (state " \o r.state \o ", " \o r.mode \o ", " \o r.order \o ")")
                     ELSE V(r.id, "violation", "", "a thread panicked during shutdown: " \o p)
 Others(r) == [k \in 1..Len(r.others) |-> OtherPanic(r, r.others[k])]
